@@ -1092,6 +1092,8 @@ func c01Shrinks(c c01Case) []c01Case {
 			// a failure that does not depend on the kind of a literal is keyed with
 			// INT (two values, so that literals that must differ can stay different)
 			repl = append(repl, nInt(0), nInt(1))
+		case "arr", "obj":
+			repl = append(repl, nInt(0), nInt(1))
 		default:
 			repl = append(repl, nInt(0))
 		}
@@ -1112,6 +1114,9 @@ func c01Shrinks(c c01Case) []c01Case {
 // c01PatShrinks: the one-step reductions of a match pattern.
 func c01PatShrinks(p *c01N) []*c01N {
 	var out []*c01N
+	if p.K != "pwild" && p.K != "none" {
+		out = append(out, &c01N{K: "pwild"})
+	}
 	switch p.K {
 	case "pfloat", "pstr", "pbool", "pnull":
 		out = append(out, &c01N{K: "pint"})
